@@ -32,7 +32,9 @@ def cases(rng, tier):
     for i in range(n):
         mem, nf = c09._gen_archive(rng, 6)
         out.append({"members": [[n_, k, (b or b"").hex()] for n_, k, b in mem], "folders": nf, "writer": rng.choice(["ref", "py"]), "chain": rng.choice(["LZMA2", "COPY", "ZSTD"]),
-                    "seed": rng.getrandbits(32), "runs": 6 if tier == "quick" else 10})
+                    "seed": rng.getrandbits(32), "runs": 6 if tier == "quick" else 10,
+                    # small I/O block / extraction chunk: members are decoded in several rounds (as members above 1 MiB / 128 MB are)
+                    "block": rng.choice([None, None, 4096, 100]), "chunk": rng.choice([None, 1000, 100, 16])})
     return out
 
 
@@ -131,7 +133,7 @@ def run_case(case):
     obs = {k: 0 for k in REQUIRED_OBS}
     cells = set()
     r = random.Random(case["seed"])
-    with pz.scratch("vf-c18-") as d:
+    with pz.scratch("vf-c18-") as d, K.io_knobs(case.get("block"), case.get("chunk")):
         mem, data = c09._build(case, d)
         names = [n for n, _, _ in mem]
         kinds = {n: k for n, k, _ in mem}
@@ -217,7 +219,7 @@ def run_case(case):
             for code, text in check_log(list(log), close_ret, sizes, delivered, tag):
                 viol.append({"key": "log/" + code, "what": text})
             obs["members_paired"] += len({e[4][0] for e in log if e[3] == "start"})
-            cells.add("f%d|%s|%s|%s|blk%d|%s" % (case["folders"], call, mode, sink, block, "sched" if gated else "free"))
+            cells.add("f%d|%s|%s|%s|blk%d|%s|%s" % (case["folders"], call, mode, sink, block, "sched" if gated else "free", "multi-round" if case.get("chunk") else "one-round"))
             if len(viol) > 10:
                 break
         obs["distinct_schedules"] = len(traces)
